@@ -258,6 +258,9 @@ def val_setuparg(ctx: Ctx) -> RuleResult:
         a = next((k.value for k in call.keywords if k.arg == ip), call.args[0] if call.args else None)
         n_calls += 1
         ok_in = a is not None and norm_src(a) == "self.input_uxns"
+        if not ok_in and isinstance(a, (ast.ListComp, ast.SetComp, ast.GeneratorExp)) and len(a.generators) == 1 and not a.generators[0].ifs \
+                and norm_src(a.generators[0].iter) == "self.input_uxns":
+            ok_in = True  # the ids (or the nodes) of ALL inputs, computed on the caller's side
         r.ob(ok_in, {"from_exec_nodes called from": f2.short, ip: norm_src(a) if a is not None else None})
         if not ok_in:
             r.violate(f"{f2.short}: the setup-argument check receives {norm_src(a) if a is not None else 'no inputs'}, not all inputs of the DAG",
@@ -686,6 +689,11 @@ def val_synthseq(ctx: Ctx) -> RuleResult:
             elif isinstance(call.func, ast.Attribute) and call.func.attr == "__init__" and isinstance(call.func.value, ast.Call) \
                     and dotted(call.func.value.func) == "super" and f.cls is not None and f.cls.qualname in fam and f.name == "__init__":
                 target = f.cls.qualname
+                # the constructor reached by super() is another hand-written one of the family (an intermediate base class): it is the
+                # one that decides, and it is examined where IT calls super().__init__
+                nxt = next((c_ for c_ in ctx.P.mro(f.cls)[1:] if "__init__" in c_.methods), None)
+                if nxt is not None and nxt.qualname in fam:
+                    continue
             if target is None or any(k.arg is None for k in call.keywords):
                 continue
             n += 1
